@@ -673,7 +673,7 @@ theorem default_sorters_total (val : Bytes → Int) :
   ⟨nvName_strictTotal val, nvValue_strictTotal val, fun _ _ => rfl, keyLess_nvValue val⟩
 
 /-- `minSlice`: the first `count` items (all of them when there are fewer); a negative `count` panics
-(`rare histo -n -1` stops earlier, in `NewHistogram`). -/
+(since bb14ba5 the CLI refuses a negative `-n`; before, `rare histo -n -1` died even earlier, in `NewHistogram`). -/
 theorem minSlice_exact {α : Type} (items : List α) (count : Int) :
     minSlice items count = if count < 0 then .error "slice bounds out of range" else .ok (items.take count.toNat) :=
   minSlice_spec items count
@@ -800,35 +800,40 @@ theorem num_f64_count (keep : Bool) (h : List Bytes) :
     rw [runFv_samples]; exact length_filterMap_add_countP _ _
   · rw [e]; exact runFv_values keep ok
 
-/-- `Min()` / `Max()` are exact – comparisons do not round.  After any `Samplef` sequence `l`:
-neither is NaN (a NaN sample never wins a comparison, so NaN samples are ignored); `Min()` is ≤ and `Max()` is ≥
-every non-NaN sample in the IEEE order; `Min()` IS one of the samples as soon as one sample is below the initial
-sentinel `MaxFloat64` and is the sentinel itself otherwise (so `Min()` of samples that are all `+Inf` is
-`MaxFloat64`, not `+Inf` – the sentinel is a finite number, not +Inf; symmetrically for `Max()`); for a non-empty
-list of finite samples both are samples and they are the least / greatest sample VALUE, because on finite floats
-the IEEE order is the order of the exact values. -/
+/-- `Min()` / `Max()` are exact – comparisons do not round.  After any `Samplef` sequence `l`: neither is NaN (a NaN
+sample never wins a comparison, so NaN samples are ignored); `Min()` is ≤ and `Max()` is ≥ every non-NaN sample in
+the IEEE order; as soon as ONE sample is not NaN both ARE samples (after the fix bda1842: they start at `+Inf` /
+`-Inf`; the old sentinels `±MaxFloat64` made `Min()` of samples that are all `+Inf` equal to `MaxFloat64`), and
+with only NaN samples (or none) they are still `+Inf` / `-Inf`.  Hence for finite samples they are the least /
+greatest sample VALUE: on finite floats the IEEE order is the order of the exact values. -/
 theorem num_f64_minmax (keep : Bool) (l : List F64) :
     let r := runFv keep l
     r.min.isNaN = false ∧ r.max.isNaN = false ∧
     (∀ y ∈ l, y.isNaN = false → F64.le r.min y = true ∧ F64.le y r.max = true) ∧
-    ((∃ y ∈ l, F64.lt y maxF64 = true) → r.min ∈ l) ∧
-    ((∀ y ∈ l, F64.lt y maxF64 = false) → r.min = maxF64) ∧
-    ((∃ y ∈ l, F64.lt (F64.neg maxF64) y = true) → r.max ∈ l) ∧
-    ((∀ y ∈ l, F64.lt (F64.neg maxF64) y = false) → r.max = F64.neg maxF64) ∧
+    ((∃ y ∈ l, y.isNaN = false) → r.min ∈ l ∧ r.max ∈ l) ∧
+    ((∀ y ∈ l, y.isNaN = true) → r.min = F64.inf false ∧ r.max = F64.inf true) ∧
     (l ≠ [] → (∀ x ∈ l, x.isFinite = true) →
       r.min ∈ l ∧ r.max ∈ l ∧ ∀ y ∈ l, r.min.toRat ≤ y.toRat ∧ y.toRat ≤ r.max.toRat) := by
   intro r
-  have mm := minmax_fold keep l NumF.new isNaN_maxF64 isNaN_negMaxF64
+  have mm := minmax_fold keep l NumF.new isNaN_posInf isNaN_negInf
   simp only [] at mm
-  obtain ⟨a1, a2, _, _, a5, a6, _, _, a9, a10⟩ := mm
-  refine ⟨a1, a2, fun y hy hn => ⟨a5 y hy hn, a9 y hy hn⟩, a6, min_unchanged keep l NumF.new, a10,
-    max_unchanged keep l NumF.new, ?_⟩
-  intro hne hf
-  obtain ⟨m1, m2⟩ := minmax_mem_of_finite keep l hne hf
-  refine ⟨m1, m2, fun y hy => ?_⟩
-  have fy := hf y hy
-  exact ⟨(F64.le_iff_toRat_le (hf _ m1) fy).mp (a5 y hy (F64.not_nan_of_finite fy)),
-    (F64.le_iff_toRat_le fy (hf _ m2)).mp (a9 y hy (F64.not_nan_of_finite fy))⟩
+  obtain ⟨a1, a2, _, _, a5, _, _, _, a9, _⟩ := mm
+  refine ⟨a1, a2, fun y hy hn => ⟨a5 y hy hn, a9 y hy hn⟩, minmax_mem keep l, ?_, ?_⟩
+  · intro hall
+    refine ⟨min_unchanged keep l NumF.new fun y hy => ?_, max_unchanged keep l NumF.new fun y hy => ?_⟩
+    · cases h : F64.lt y NumF.new.min
+      · rfl
+      · have := ((lt_iff_key _ _).mp h).1; rw [hall y hy] at this; cases this
+    · cases h : F64.lt NumF.new.max y
+      · rfl
+      · have := ((lt_iff_key _ _).mp h).2.1; rw [hall y hy] at this; cases this
+  · intro hne hf
+    obtain ⟨y0, l', rfl⟩ := List.exists_cons_of_ne_nil hne
+    obtain ⟨m1, m2⟩ := minmax_mem keep (y0 :: l') ⟨y0, by simp, F64.not_nan_of_finite (hf y0 (by simp))⟩
+    refine ⟨m1, m2, fun y hy => ?_⟩
+    have fy := hf y hy
+    exact ⟨(F64.le_iff_toRat_le (hf _ m1) fy).mp (a5 y hy (F64.not_nan_of_finite fy)),
+      (F64.le_iff_toRat_le fy (hf _ m2)).mp (a9 y hy (F64.not_nan_of_finite fy))⟩
 
 /-- Order statistics involve no arithmetic on the samples, hence no rounding: they ARE samples.
 `sort.Float64s` / `sort.Sort(sort.Reverse(…))` is specified by its contract only (Go's pdqsort is not stable): `s` is
@@ -980,7 +985,7 @@ theorem num_f64_mean_between_min_max (keep : Bool) (l : List F64) (hne : l ≠ [
     r.min.toRat ≤ r.mean.toRat ∧ r.mean.toRat ≤ r.max.toRat := by
   intro r
   have hf : ∀ x ∈ l, x.isFinite = true := fun x hx => (hl x hx).1
-  obtain ⟨_, _, _, _, _, _, _, hfin⟩ := num_f64_minmax keep l
+  obtain ⟨_, _, _, _, _, hfin⟩ := num_f64_minmax keep l
   obtain ⟨m1, m2, hb⟩ := hfin hne hf
   have b1 := hl _ m1
   have b2 := hl _ m2
@@ -1035,8 +1040,8 @@ def exMixed : List F64 := [F64.ofInt 1, F64.zero true, F64.nan, F64.zero false]
 example : IsSortedF false [F64.nan, F64.zero true, F64.zero false, F64.ofInt 1] exMixed ∧
     IsSortedF false [F64.nan, F64.zero false, F64.zero true, F64.ofInt 1] exMixed := by
   exact ⟨⟨by decide +kernel, by decide +kernel⟩, ⟨by decide +kernel, by decide +kernel⟩⟩
-/-- the `+Inf` sentinel quirk and the overflow witness are real -/
-example : (runFv false [F64.inf false, F64.inf false]).min = maxF64 := by decide +kernel
+/-- all samples `+Inf`: `Min()` is `+Inf` (was `MaxFloat64` before bda1842); the overflow witness is real -/
+example : (runFv false [F64.inf false, F64.inf false]).min = F64.inf false := by decide +kernel
 example : (runFv false [F64.neg maxF64, maxF64]).mean = F64.inf false := by decide +kernel
 
 /-! ## `rare reduce` with the static optimiser on (C07 × C10)
